@@ -18,6 +18,7 @@ Actions:
     ["panic_sym", i]        revert Panic(<static parameter i>)  -- symbolic panic code (hand-made only)
     ["panic_len", n, k]     revert with n bytes starting like Panic(k) (n != 36: not a Panic)
     ["error_sel", sel, k]   36 bytes with another selector
+    ["revert_word", i]      revert with <static parameter i> ++ 00000000 (symbolic selector, hand-made only)
     ["fail"]                DSTest.fail() then STOP        ["revert"]  ["invalid"]  ["stop"]
 
 Three renderings of the same description: EVM code (harness/asm.py items), z3 formula (oracle
@@ -100,6 +101,9 @@ def compile_action(a):
         return l3.revert_raw_items(a[1].to_bytes(4, "big") + a[2].to_bytes(32, "big"))
     if k == "fail":
         return l3.hevm_fail_items() + ["STOP"]
+    if k == "revert_word":
+        # 36 bytes: the 32-byte parameter followed by 4 zero bytes (selector AND code symbolic)
+        return [("push", head_off(a[1])), "CALLDATALOAD", "PUSH0", "MSTORE", ("push", 0x24), "PUSH0", "REVERT"]
     if k == "revert":
         return ["PUSH0", "PUSH0", "REVERT"]
     if k == "invalid":
@@ -241,6 +245,9 @@ def action_violates(a, codes, env):
     if a[0] == "panic_sym":
         v = env["args"][a[1]] % M
         return not codes or v in codes
+    if a[0] == "revert_word":
+        v = env["args"][a[1]] % M
+        return v >> 224 == l3.PANIC_SELECTOR and (not codes or ((v & ((1 << 224) - 1)) << 32) in codes)
     return a[0] == "fail"
 
 
@@ -608,7 +615,7 @@ def action_leaf(a):
     k = a[0]
     if k == "panic":
         return ERR_REVERT, l3.PANIC_SELECTOR.to_bytes(4, "big") + a[1].to_bytes(32, "big")
-    if k == "panic_sym":
+    if k in ("panic_sym", "revert_word"):
         return ERR_REVERT, "sym"
     if k == "panic_len":
         return ERR_REVERT, (l3.PANIC_SELECTOR.to_bytes(4, "big") + a[2].to_bytes(32, "big") + b"\0" * 64)[:a[1]]
